@@ -2,7 +2,7 @@
 from __future__ import annotations
 
 import ast
-from typing import Callable, Iterator, List, Optional, Sequence
+from typing import Callable, Iterator, List, Optional, Sequence, Tuple
 
 from .core import AnchorError, FuncInfo, dotted, norm, walk_no_nested
 
@@ -505,3 +505,19 @@ def bound_args(repo, call: ast.Call, callee_params: Sequence[str]) -> Optional[L
             return None
         out[i] = k.value
     return out
+
+
+def flatten_form(e) -> Optional[Tuple[ast.expr, ast.expr, str, int, int]]:
+    """`[b for a in X for b in a.Y]` (any names) -> (X core, a.Y core, name of a, reversals of X mod 2, reversals
+    of a.Y mod 2); None when `e` is not a two-level flattening comprehension whose element is the inner variable"""
+    e = strip_wrappers(e)
+    if not (isinstance(e, (ast.ListComp, ast.GeneratorExp)) and len(e.generators) == 2):
+        return None
+    g0, g1 = e.generators
+    if g0.ifs or g1.ifs or not (isinstance(g0.target, ast.Name) and isinstance(g1.target, ast.Name)):
+        return None
+    if not (isinstance(e.elt, ast.Name) and e.elt.id == g1.target.id):
+        return None
+    outer, p0 = reversal_parity(g0.iter)
+    inner, p1 = reversal_parity(g1.iter)
+    return outer, inner, g0.target.id, p0, p1
